@@ -32,10 +32,14 @@ ASSUMPTIONS = [
     'asyncio ready-queue order is FIFO (never permuted); schedule diversity comes from probe completion times',
     'probe outcomes follow a per-address liveness model: alive -> pong, dead -> TimeoutError or RemoteException',
     'displacement/admission clauses are asserted in sequential histories only; concurrent histories check structure',
+    'a known node id claimed from another address is a newcomer at a different address like any other: the known '
+    'contact may be replaced only after failing a probe (until cf87ca4 the product replaced it unprobed and the '
+    'harness had excused that as an address update)',
 ]
 EXPECTED_PROBES = ['split', 'join_middle', 'join_edge', 'probe_ok', 'probe_fail', 'replaced', 'same_addr_purge',
                    'readd_same_id', 'boundary_id', 'query', 'conc_probe_resumed_after_change', 'admit_checked',
-                   'displace_checked', 'bootstrap_run']
+                   'displace_checked', 'bootstrap_run', 'same_id_other_addr_checked', 'moved_after_failed_probe',
+                   'same_id_claim_refused_known_alive']
 
 SPACE = 1 << 384
 K = 8
@@ -316,8 +320,23 @@ def execute(scenario, keep_trace=False):
                 else:
                     run.violation('C11.displaced_live', f'contact {i.hex()[:12]}@{a} vanished during add_peer of a '
                                   f'newcomer at {(address, port)} without failing a probe')
+        moved = node_id in before and before[node_id] != (address, port)
+        if moved:
+            # the node id of a known contact is claimed from another address: the known contact may only go if it
+            # stopped answering (anyone can put a public node id into a datagram)
+            old = before[node_id]
+            run.probes['same_id_other_addr_checked'] += 1
+            if after.get(node_id) != old:
+                if (old, node_id) in failed:
+                    run.probes['moved_after_failed_probe'] += 1
+                else:
+                    run.violation('C11.displaced_live', f'contact {node_id.hex()[:12]}@{old} was replaced by the same node '
+                                  f'id claimed from {(address, port)} without failing a probe (now: {after.get(node_id)})',
+                                  same_id=True)
+            else:
+                run.probes['same_id_claim_refused_known_alive'] += 1
         d = dist_of(node_id)
-        if d != 0:
+        if d != 0 and not (moved and after.get(node_id) == before[node_id]):
             must = len(others) < K or d < others[K - 1]
             if must:
                 run.probes['admit_checked'] += 1
